@@ -94,3 +94,11 @@ Proof.
   - intros v [<-|[]]. lia.
   - intros v [<-|[<-|[]]]; lia.
 Qed.
+
+(* "after a complete read-through ... the view equals the controller's log": the read-through loop (FaultLog.get_faultlog from the top, limit 64)
+   asks for every slot down to the first empty one -- slot 3F, the last one of a full log, included *)
+Theorem C19_read_through_asks_every_slot : forall len, get_faultlog_asks len 0 64 = seq 0 (Nat.min 64 (S len)).
+Proof. exact read_through_asks_every_slot. Qed.
+Theorem C19_full_log_read_to_the_last_slot : forall len, (64 <= len)%nat ->
+  In 63%nat (get_faultlog_asks len 0 64) /\ length (get_faultlog_asks len 0 64) = 64%nat.
+Proof. exact full_log_read_to_the_last_slot. Qed.
